@@ -10,6 +10,7 @@ import (
 	"os"
 	"os/exec"
 	"path/filepath"
+	"runtime/debug"
 	"sort"
 	"strconv"
 	"strings"
@@ -23,6 +24,7 @@ import (
 const verifDir = "/verif"
 
 var repoDir = "/repo"
+var maxPathsOverride int
 
 type ObSpec struct {
 	Name       string       `json:"name"`
@@ -142,6 +144,9 @@ func cmdRun(args []string) int {
 			jobs, _ = strconv.Atoi(args[i])
 		case "-v":
 			verbose = true
+		case "--max-paths":
+			i++
+			maxPathsOverride, _ = strconv.Atoi(args[i])
 		}
 	}
 	seed := 0
@@ -357,7 +362,7 @@ func runOb(eng *sx.Engine, o ObSpec, tier string, open map[string]bool, verbose 
 	}
 	kind := o.Solver
 	if kind == "" {
-		kind = "z3"
+		kind = "z3-new"
 	}
 	to := o.TimeoutMs
 	if to == 0 {
@@ -382,6 +387,9 @@ func runOb(eng *sx.Engine, o ObSpec, tier string, open map[string]bool, verbose 
 	if x.Cfg.Unwind == 0 {
 		x.Cfg.Unwind = 600
 	}
+	if maxPathsOverride > 0 {
+		x.Cfg.MaxPaths = maxPathsOverride
+	}
 	if x.Cfg.MaxPaths == 0 {
 		x.Cfg.MaxPaths = 200000
 	}
@@ -399,7 +407,7 @@ func runOb(eng *sx.Engine, o ObSpec, tier string, open map[string]bool, verbose 
 			if r := recover(); r != nil {
 				x.St.Inconclusive = append(x.St.Inconclusive, fmt.Sprintf("executor crashed: %v", r))
 				if verbose {
-					fmt.Fprintf(os.Stderr, "executor crash in %s: %v\n", o.Name, r)
+					fmt.Fprintf(os.Stderr, "executor crash in %s: %v\n%s\n", o.Name, r, debug.Stack())
 				}
 			}
 		}()
@@ -461,7 +469,7 @@ func writeEvidence(spec Spec, tier string, seed int, results []*obResult, wall f
 			Queries: r.Solver.Queries, Sat: r.Solver.Sat, Unsat: r.Solver.Unsat, Unknown: r.Solver.Unknown, SolverS: r.Solver.Seconds, WallS: r.Wall,
 			Solver: r.Spec.Solver, Stubs: r.St.StubsUsed, Notes: r.St.Notes, Known: r.St.KnownHit, Viol: r.St.Violations}
 		if e.Solver == "" {
-			e.Solver = "z3 4.8.12 (-in, incremental push/pop)"
+			e.Solver = "z3 5.1.0 (z3-new -in, incremental push/pop)"
 		}
 		for l := range r.St.Reached {
 			e.Reached = append(e.Reached, l)
